@@ -130,6 +130,8 @@ __attribute__((noinline)) static void poison_stack(uint64_t k) {
     asm volatile("" :: "r"(buf) : "memory");
 }
 
+static unsigned g_env_int = 0, g_env_flt = 0;   // --env-fuzz I,F: bit 0 rounding mode, bit 1 FTZ, bit 2 DAZ (integer/mask targets, float targets)
+static uint64_t g_env_fuzzed = 0;
 static void run_raw(const VpCase& c, VpOutcome& o) {
     std::memset(&o, 0, sizeof o);
     o.bad_lane = -1;
@@ -137,14 +139,31 @@ static void run_raw(const VpCase& c, VpOutcome& o) {
     g_current = c; ++g_case_serial;
     // every Case starts from the default floating-point environment (a Case that leaves it changed is C11's business
     // and is detected inside the check; it must not leak into the next Case)
-    _mm_setcsr(0x1F80);
+    // ... unless the property's results must not depend on it (--env-fuzz): then half of the Cases run under a rounding mode / FTZ / DAZ
+    // setting derived from the Case itself (so that a replay sees the same one), SSE and x87 alike
+    uint32_t csr = 0x1F80; uint16_t cw = 0x037F;
+    {
+        const unsigned allow = g_targets[c.target].cls == 2 ? g_env_flt : g_env_int;
+        if (allow) {
+            const uint64_t h = hash_case(c);
+            if (h & 8) {
+                if (allow & 1) { csr |= (uint32_t)((h >> 4) & 3) << 13; cw |= (uint16_t)(((h >> 4) & 3) << 10); }
+                if (allow & 2) csr |= (uint32_t)((h >> 6) & 1) << 15;
+                if (allow & 4) csr |= (uint32_t)((h >> 7) & 1) << 6;
+            }
+        }
+    }
+    _mm_setcsr(csr);
+    __asm__ volatile("fldcw %0" : : "m"(cw));
     if ((g_case_serial % g_poison_every) == 0) poison_stack(g_case_serial / g_poison_every);
     if (sigsetjmp(g_jmp, 1) == 0) {
         g_in_run = 1;
         vp_run(&c, &o);
         g_in_run = 0;
+        if (csr != 0x1F80) { _mm_setcsr(0x1F80); cw = 0x037F; __asm__ volatile("fldcw %0" : : "m"(cw)); if (o.status == 0) ++g_env_fuzzed; }
     } else {
         g_in_run = 0;
+        _mm_setcsr(0x1F80); cw = 0x037F; __asm__ volatile("fldcw %0" : : "m"(cw));
         // the check may have declared, before calling AVEL, that a trap at this point is allowed
         // (o.tag starts with "trap-ok")
         if (g_sig == SIGVTALRM) {
@@ -433,8 +452,19 @@ static Gen<uint64_t> gFltRel(unsigned w, uint64_t a) {
 
 static void fill_lanes(uint64_t* out, unsigned width, const std::function<Gen<uint64_t>(unsigned)>& laneGen,
                        const Gen<uint64_t>& noise) {
-    int mode = width == 1 ? 0 : (int)*R(0, 10);
-    if (mode <= 5) {
+    int mode = width == 1 ? 0 : (int)*R(0, 13);
+    if (mode >= 10) {
+        // blocks: runs of 2, 4, ... width/2 lanes share a value (pairs {a,a,b,b}, a uniform half next to a different half, a repeating
+        // period): what a per-128-bit-half shuffle or a "are all lanes equal?" shortcut with a wrong width confuses
+        unsigned nb = 0; for (unsigned b = 2; b < width; b *= 2) ++nb;
+        if (nb == 0) { for (unsigned i = 0; i < width; ++i) out[i] = *laneGen(i); return; }
+        const unsigned bs = 2u << (unsigned)*R(0, nb);
+        const bool periodic = mode == 12;            // value depends on i % bs instead of i / bs
+        uint64_t vals[64];
+        for (unsigned i = 0; i < width; ++i) vals[i] = *laneGen(i);
+        if (mode == 11) { uint64_t x = vals[0], y = vals[width - 1]; for (unsigned i = 0; i < width; ++i) out[i] = (i < bs) ? x : y; return; }   // first block uniform, rest another value
+        for (unsigned i = 0; i < width; ++i) out[i] = periodic ? vals[i % bs] : vals[(i / bs) * bs];
+    } else if (mode <= 5) {
         for (unsigned i = 0; i < width; ++i) out[i] = *laneGen(i);
     } else if (mode <= 7) {
         uint64_t x = *laneGen(0);
@@ -679,7 +709,7 @@ static void write_json(const std::string& path, const std::string& mode, uint64_
     os << "{\"property\":\"" << vp_property() << "\",\"config\":\"" << jesc(g_config) << "\",\"mode\":\"" << mode << "\",\"seed\":" << seed
        << ",\"wall_s\":" << wall << ",\"evaluations\":" << g_evals << ",\"lanes_compared\":" << g_lanes << ",\"nontrivial\":" << g_nontrivial
        << ",\"distinct_nontrivial\":" << g_distinct.size() << ",\"distinct_saturated\":" << (g_saturated ? "true" : "false")
-       << ",\"not_applicable\":" << g_na << ",\"known_excluded\":" << g_known_excluded << ",\"rule\":\"" << jesc(vp_rule()) << "\"";
+       << ",\"not_applicable\":" << g_na << ",\"known_excluded\":" << g_known_excluded << ",\"env_fuzzed\":" << g_env_fuzzed << ",\"rule\":\"" << jesc(vp_rule()) << "\"";
     os << ",\"classes\":{";
     for (uint32_t k = 0; k < g_nclasses; ++k) os << (k ? "," : "") << "\"" << g_classes[k] << "\":" << g_class_counts[k];
     os << "},\"per_target\":{";
@@ -734,6 +764,7 @@ int main(int argc, char** argv) {
         else if (a == "--case") casetext = next();
         else if (a == "--regress") regress_file = next();
         else if (a == "--history-file") history_file = next();
+        else if (a == "--env-fuzz") { std::string e = next(); sscanf(e.c_str(), "%u,%u", &g_env_int, &g_env_flt); }
         else if (a == "--max-failures") g_max_failures = strtoull(next().c_str(), 0, 10);
         else if (a == "--ub-violation") g_ub_is_violation = atoi(next().c_str()) != 0;
         else if (a == "--enum-stride") g_enum_stride = strtoull(next().c_str(), 0, 10);
